@@ -381,6 +381,24 @@ def native_objects_and_boundaries(ck):
     if not np.allclose(np.asarray(pe2, dtype=float), want2, rtol=1e-12):
         fails.append({"obligation": "bounded.objects", "clause": "numPEs = photon density x effective area x quantum efficiency of the configuration in force at the call (a configuration edited after the EAS object was built)",
                       "input": {"history": "EAS(cfg); call; cfg.detector.optical <- area 7.0, QE 0.35, threshold 25; call", "densities": v2["dph"].tolist()}, "observed": {"numPEs": np.asarray(pe2, dtype=float).tolist(), "expected": want2.tolist()}})
+    # (e) one object, two batches of the same size: an index that was simulated in the first call and is out of range in the second gets the
+    # defaults (0 PE, 1.5 deg), not what the earlier call left there
+    cfg5 = NssConfig()
+    eas5 = EAS(cfg5)
+    a_first, a_second = np.array([5.0, 12.0, 3.0, 25.0]), np.array([25.0, -1.0, 3.0, 8.0])
+    outs5 = []
+    for alt_ in (a_first, a_second):
+        v5 = {"beta": rng.uniform(0.05, 0.6, 4), "alt": alt_, "E": 10 ** rng.uniform(-1, 1, 4), "lat": rng.uniform(-1, 1, 4), "lon": rng.uniform(-3, 3, 4)}
+        v5["dph"], v5["th"] = kernel_fn(v5["beta"], v5["alt"], v5["E"], v5["lat"], v5["lon"])
+        eas5.CphotAng = KernelStub(v5)
+        with np.errstate(all="ignore"):
+            pe5, cth5 = eas5(v5["beta"].copy(), alt_.copy(), v5["E"].copy(), v5["lat"].copy(), v5["lon"].copy())
+        outs5.append((np.array(pe5, dtype=float), np.array(cth5, dtype=float)))
+    n += 4
+    out_of_range = (a_second < 0) | (a_second > 20)
+    if np.any(outs5[1][0][out_of_range] != 0) or not np.allclose(outs5[1][1][out_of_range], np.cos(np.radians(1.5)), rtol=0, atol=0):
+        fails.append({"obligation": "bounded.objects", "clause": "a second call on the same object with a batch of the same size: out-of-range events get exactly 0 PE and the default 1.5 deg angle (nothing of the earlier call)",
+                      "input": {"first call altDec": a_first.tolist(), "second call altDec": a_second.tolist()}, "observed": {"numPEs of the second call": outs5[1][0].tolist(), "cos(angle) of the second call": outs5[1][1].tolist()}})
     # (d) integer-typed decay altitudes give what the same altitudes give as doubles
     ialt = np.array([5, 25, 10, -1, 20, 0], dtype=np.int64)
     m3 = len(ialt)
@@ -416,6 +434,10 @@ def run(ck):
     stage(ck, full=True)
 
     run_dependency(ck)
+    from contracts import C10
+
+    ck.bounded_run("kernel copies in worker processes carry the detector altitude", lambda: (lambda f: {"evaluations": 9, "failures": f})(C10.processes_design(ck)),
+                   design="9 events, scheduler=processes (2 workers), detector at 33 km vs one-at-a-time (the 1/d^2 rescaling to the configured altitude must survive the copy)")
     ck.bounded_run("EAS objects built in sequence; range cut at its floating-point boundaries", lambda: native_objects_and_boundaries(ck),
                    design="4 EAS objects (525, 33, 1000, 33 km) built in one process; 10 decay altitudes around 0 and 20 km (neighbouring doubles, denormals, -8e-16) with a recording stand-in kernel")
 
